@@ -75,6 +75,8 @@ def compare(cmp, impl, model):
     return "unknown comparator " + cmp
 
 CFG = dict(
+    src_tables=True,   # tools/gen_tables.py + Proofs/SrcTablesRoll.v: tables regenerated from the Rust source on every run
+    src_tables_proofs=["Proofs/SrcTablesRoll.vo"],   # the rolling-family part of the generated tables (min_periods shapes)
     bins=["c06"],
     imports=["Run.RunC01", "Run.RunC03", "Run.RunC04", "Run.RunC13"],
     rule="part=prefix: 40 (thorough 90) structured series of length 1..9 (14) with nulls x 2 random (window, explicit min_periods) x all "
@@ -115,7 +117,10 @@ CFG = dict(
                "finite, and on dyadic-grid data (the generated k/4 inputs) no operation rounds, so the binary64 run equals the "
                "exact run; for the other accumulator families (mean, var, skew, kurt, ewm, wma, cross sums, trend) the rounding "
                "bound is still only the tolerance of the two-history runs. Tied to the code by relational runs on the implementation (all "
-               "cuts, bit for bit; two histories) plus the model run on every prefix.",
+               "cuts, bit for bit; two histories) plus the model run on every prefix, and statically (translator, Proofs/SrcTablesRoll.v, "
+               "re-checked on every run): which entry points clamp the window to the series length before computing min_periods — the one "
+               "thing that makes a prefix behave differently (DESIGN 5.3) — is re-extracted from the Rust source text of all 38 `fn ts_*` and "
+               "proved equal to the models (exactly the five cmp.rs functions; every other effective min_periods is length-independent).",
     level_note="Trusted: Coq kernel (+ Reals axioms for the window-only statements; + Classical_Prop.classic and the standard library's FloatAxioms.{Prim2SF_valid, SF2Prim_Prim2SF, Prim2SF_SF2Prim, add_spec, sub_spec, opp_spec, abs_spec, eqb_spec} under the binary64 rounding theorems of the rolling sum, which go through Flocq's IEEE754.PrimFloat bridge); the models of the rolling families; DESIGN 5.2 "
                "(finite bounded histories: an infinite or overflowing history poisons the accumulators forever) and 5.3 (omitted "
                "min_periods of the extrema/rank family only for len >= w).",
